@@ -142,12 +142,21 @@ def _sweep(outputs, grad_outputs, requested, retain_graph, accumulate):
             raise RuntimeError("Trying to backward through the graph a second time (or directly access saved tensors after they have already been freed).")
         if in_vmap and not o.vmap_ok:
             raise RuntimeError("You tried to vmap over an autograd.Function that does not support vmap (generate_vmap_rule / vmap staticmethod missing).")
+        touched = set()
         for (k, i), M in o.jac.items():
             g = buf.get(id(o.outputs[k]))
             if g is None:
                 continue
             tin = o.inputs[i]
             add(tin, [symx_sum(g[r] * M[r][c] for r in range(len(g))) for c in range(tin.numel())])
+            touched.add(i)
+        # an executed node hands a gradient to every input some output of it depends on: zeros when only the outputs that do NOT
+        # depend on the input carry a gradient (their siblings' gradients are materialised as zeros, as torch does); an input no
+        # output depends on receives nothing (None) - exactly the behaviour of the real twin programs (custom autograd.Function)
+        if any(buf.get(id(t)) is not None for t in o.outputs):
+            for i, tin in enumerate(o.inputs):
+                if tin.requires_grad and i not in touched and any(ii == i for (_, ii) in o.jac):
+                    add(tin, [R(0)] * tin.numel())
     if not retain_graph:
         for o in plan:
             if in_vmap:
